@@ -3,6 +3,54 @@ import common as C
 import evalloopgen as G
 
 KEY_F8 = "C15:expiry-before-wait"
+# observations (findings/C15.json "observations"): behaviour of accepted but absurd / degenerate configurations and of a
+# reply in flight at the expiry.  The faithful model exhibits each of them and the implementation is compared with it; they
+# are reported as KNOWN-FINDING only if known_findings.json lists the key, and never fail the check.
+OBS_WRAP = "C15:interval-duration-overflow"
+OBS_INT63N = "C15:refresh-int63n-panic"
+OBS_LATE = "C15:late-reply-notified"
+
+
+def dedupe_ids(line):
+    """K:/T: tokens with each group once: beyond the Duration bound every entry is due at EVERY 1 ms iteration, so the
+    number of requests per scripted tick depends on how many iterations fit into the observation window."""
+    out = []
+    for tok in line.split():
+        bang = "!" if tok.startswith("!") else ""
+        t = tok[len(bang):]
+        if t[:2] in ("K:", "T:") and "BAD" not in t:
+            ids = sorted(set(x for x in t[2:].split(",") if x), key=int)
+            tok = bang + t[:2] + ",".join(ids)
+        out.append(tok)
+    return " ".join(out)
+
+
+def observe(chk, case, impl):
+    """Counts the observations a cfg case exhibits on the implementation (see OBS_*)."""
+    c = G.parse_cfg(case)
+    toks = impl.split()[2:]
+    seen = []
+    if G.duration_wraps(c["mods"]) and any(t[:2] in ("K:", "T:") and len(t) > 2 for t in toks):
+        ticks = [(ev[1], toks[k]) for k, ev in enumerate(c["events"]) if k < len(toks) and ev[0] in ("k", "t")]
+        exp = G.shortest_configured(c["mods"])
+        last = {}
+        for now, t in ticks:
+            ids = [x for x in t.lstrip("!")[2:].split(",") if x.isdigit()]
+            for g in ids:
+                if ids.count(g) > 1 or (g in last and 0 <= now - last[g] < exp * G.NS):
+                    seen.append(OBS_WRAP)
+                last[g] = now
+    for k, ev in enumerate(c["events"]):
+        if k < len(toks) and ev[0] in ("r", "rp") and toks[k] == "PANIC":
+            seen.append(OBS_INT63N)
+        if k < len(toks) and ev[0] == "af" and toks[k].startswith("AF:") and toks[k].endswith(":1"):
+            if any(e[0] == "x" for e in c["events"][:k]) and not any(e[0] == "k" for e in c["events"][max(i for i, e in enumerate(c["events"][:k]) if e[0] == "x"):k]):
+                seen.append(OBS_LATE)
+    seen = sorted(set(seen))
+    for key in seen:
+        chk.count("observation:" + key)
+        chk.known_finding(key, case)
+    return seen
 
 
 def seq_of(model_line):
@@ -81,8 +129,8 @@ def cfg_oracle(case, impl):
     Returns a description of the first violation or None."""
     c = G.parse_cfg(case)
     exp = G.shortest_configured(c["mods"])
-    if exp is None or exp < 0:
-        return None
+    if exp is None or exp < 0 or exp > G.MAX_INTERVAL:
+        return None                  # beyond interval * 10^9 < 2^63 the pacing clause is refuted (C15_pacing_wrap_refuted)
     toks = impl.split()
     if len(toks) < 2 or not toks[0].startswith("MI:"):
         return None
@@ -99,7 +147,7 @@ def cfg_oracle(case, impl):
             break                    # the process is gone: nothing is issued any more
         o = outs[k].lstrip("!")
         kind = ev[0]
-        if kind == "a":
+        if kind in ("a", "af"):
             continue                 # the evaluator's answers: nothing the property's oracle depends on
         if kind == "ue":
             if not o.startswith("UE"):
@@ -153,12 +201,12 @@ def cfg_oracle(case, impl):
             if "+" in o and not gate:
                 return ("group(s) %s requested after %s while the lock is not held"
                         % (",".join(_ids("+" + o.split("+", 1)[1], "+")), "the session expiry" if kind == "x" else "a failed lock.Lock()"))
-        elif kind in ("r", "rs"):
+        elif kind in ("r", "rs", "rp"):
             if not o.startswith("R:"):
                 return None
             body = o[2:].split("+")[0].replace("RANGEBAD", "")
             ents = dict(x.split("=") for x in body.split(",") if "=" in x)
-            if kind == "r":
+            if kind in ("r", "rp"):
                 # an answered refresh: the listed groups are the known groups (new entries get the LastEval the
                 # implementation reports); a refresh that was not answered changes nothing the oracle knows
                 listed = set(g for g, _ in ev[2])
@@ -216,6 +264,7 @@ def run(chk, failed):
     n_cfg_only = 90 if not chk.thorough else 4000
     n_iso = 5 if not chk.thorough else 60
     n_r3 = 6 if not chk.thorough else 80
+    n_wrap = 5 if not chk.thorough else 40
     cases, tags = [], []
     for ln in C.read_corpus(chk.pid):
         cases.append(ln); tags.append(["corpus"])
@@ -250,6 +299,12 @@ def run(chk, failed):
         cases.append(ln); tags.append(tg)
         ln, tg = G.gen_cfg_relock(rng, i)
         cases.append(ln); tags.append(tg)
+    # round 4 (audit D): beyond the bound of the pacing theorems, the Int63n panic, a late reply
+    for ln in G.FIXED_R4:
+        cases.append(ln); tags.append(["fixed", "round4"])
+    for i in range(n_wrap):
+        ln, tg = G.gen_cfg_wrap(rng, i)
+        cases.append(ln); tags.append(tg)
     for i in range(n_iso):
         ln, tg = G.gen_cfg_unlock_error(rng, i)
         cases.append(ln); tags.append(tg)
@@ -266,10 +321,22 @@ def run(chk, failed):
                 "isolated cfg scenarios in child processes: lock.Unlock() failing after an expiry (first / later cycle), a group "
                 "refresh whose storage request (cluster list / consumer list) is not taken within the 1 s timeout, evaluator "
                 "requests answered through the real reply path (incident opens / closes while the ticks go on); re-locks that "
-                "complete well inside the shortest interval; "
+                "complete well inside the shortest interval; intervals beyond 9223372036 s (Duration wrap), the Int63n panic of a "
+                "refresh (interval 0 / product wraps), replies held across an expiry; "
                 "non-trivial = at least two modules, or a scenario with a request and a tick without; distinct by the case line")
     impl, model, mism = chk.differential("evalloop", "evalloop", "TestVerifProbeEvalloop", cases, name="evalloop",
                                          project=seq_of, timeout=1500)
+    # configurations whose Duration wraps: the number of requests per tick is not determined (see dedupe_ids)
+    mism = [(i, c, a, m) for (i, c, a, m) in mism
+            if not (c.startswith("cfg ") and G.duration_wraps(G.parse_cfg(c)["mods"]) and dedupe_ids(a) == dedupe_ids(m))]
+    obs = {}
+    for c, a in zip(cases, impl):
+        if c.startswith("cfg "):
+            for key in observe(chk, c, a):
+                obs[key] = obs.get(key, 0) + 1
+    if obs:
+        chk.notes.append("observations exhibited by the implementation and by the model alike (findings/C15.json): %s"
+                         % ", ".join("%s x%d" % kv for kv in sorted(obs.items())))
     for c, tg, a, m in zip(cases, tags, impl, model):
         kind = c.split()[0]
         chk.count("kind:" + kind)
@@ -373,8 +440,9 @@ def run(chk, failed):
         "from a Broadcast just after it returns",
         "phases are observed through requests arriving on App.EvaluatorChannel (settle 260 ms, window 60 ms; loop polls 1 ms / sleeps 100 ms); "
         "the unsynchronised read of doEvaluations and the hand-over between two request goroutines are below the model's step granularity",
-        "module intervals are int64 values with 0 <= interval*10^9 < 2^63 (no time.Duration overflow; larger and negative "
-        "intervals are compared on Configure's result only); viper's key lookup / cast (explicit value, else registered default) is "
+        "the pacing clause is claimed for 0 <= shortest interval <= 9223372036 s (interval*10^9 < 2^63); beyond it the model wraps as "
+        "Go's int64 does (C15_pacing_wrap_refuted) and the implementation is compared with it up to the number of requests per "
+        "scripted tick; negative intervals are compared on Configure's result only; viper's key lookup / cast (explicit value, else registered default) is "
         "EvalLoop.viper_get; processConsumerList's random draw is checked to be in "
         "[0, minInterval*1000) ms and then pinned to the scripted value; lock.Unlock() failing (panic) is modelled but not replayed",
     ]
@@ -394,7 +462,8 @@ def report_cfg(chk, cfgs, badmi):
         impl2, model2, mism2 = chk.differential("evalloop", "evalloop", "TestVerifProbeEvalloop", [c for _, c, _, _ in cfgs],
                                                 name="evalloop_cfg_retry", project=seq_of,
                                                 extra_env={"VERIF_GRACE_MULT": "3"}, timeout=900)
-        cfgs = [(cfgs[j][0], c, a, m) for (j, c, a, m) in mism2]
+        cfgs = [(cfgs[j][0], c, a, m) for (j, c, a, m) in mism2
+                if not (G.duration_wraps(G.parse_cfg(c)["mods"]) and dedupe_ids(a) == dedupe_ids(m))]
         if not cfgs and not badmi:
             return
     reported = 0
